@@ -1,7 +1,18 @@
 ------------------------------- MODULE MCSync -------------------------------
-(* Model-checking instance of Sync: nothing a .cfg cannot express is needed beyond a VIEW that
-   forgets the request ids (always 0 at design level). *)
-EXTENDS Sync
+(* Model-checking instance of Sync.  Every bound of Sync is a scalar CONSTANT assigned in the
+   Sync_*.cfg files (no function-valued constants, no VIEW, no CONSTRAINT: all bounds are action
+   guards so that the liveness check cannot miss a non-progress cycle).
 
-MCView == vars
+   Configurations (measured on this machine, 4-6 busy cores):
+     Sync_quick.cfg      repaired, chain <= 3, 1 source step, 1 fault, safety + liveness   143 655 states
+     Sync_h13.cfg        as coded for H13: RevertsJustified fails (29-35 step counterexample) ~17 000 states
+     Sync_rvv.cfg        as coded for the unverified remote header: RevertsJustified fails
+     Sync_underflow.cfg  as coded for the uint64 underflow: EventuallyConverges fails (lasso)
+     Sync_live4.cfg      repaired, chain <= 4, safety + liveness                           255 039 states
+     Sync_fine.cfg       repaired, Fine = TRUE (the model the traces are validated against) 306 941 states
+     Sync_lagw.cfg       repaired, Lag = W = 2 as in the code, chain 5, safety
+     Sync_faults2.cfg    repaired, chain <= 4, 1 source step, 2 faults, safety             655 895 states
+     Sync_thorough.cfg   repaired, chain <= 4, 2 source steps, 1 fault, safety           2 576 759 states
+     Sync_big.cfg        repaired, chain <= 4, 2 source steps, 2 faults, safety         10 502 715 states (optional) *)
+EXTENDS Sync
 =============================================================================
